@@ -6,6 +6,7 @@
 #![allow(clippy::too_many_arguments, clippy::type_complexity)]
 #![cfg_attr(docsrs, feature(doc_cfg))]
 #![cfg_attr(docsrs, allow(unused_attributes))]
+#![allow(unexpected_cfgs)] // --cfg transparencies_stretto_verif (verification hooks, off by default)
 mod bbloom;
 mod cache;
 mod error;
@@ -26,6 +27,9 @@ mod sketch;
 mod store;
 mod ttl;
 pub(crate) mod utils;
+/// Verification-only observation points and snapshots.
+#[cfg(transparencies_stretto_verif)]
+pub mod verif;
 
 extern crate atomic;
 
@@ -52,13 +56,28 @@ pub use cache::{AsyncCache, AsyncCacheBuilder};
 #[cfg(feature = "sync")]
 #[cfg_attr(docsrs, doc(cfg(feature = "sync")))]
 pub(crate) mod sync {
+    #[cfg(not(transparencies_stretto_verif))]
     pub(crate) use crossbeam_channel::{bounded, select, unbounded, Receiver, Sender};
+    #[cfg(transparencies_stretto_verif)]
+    pub(crate) use stretto_sim_rt::{
+        select,
+        sync::{bounded, unbounded, Receiver, Sender},
+    };
+    #[cfg(not(transparencies_stretto_verif))]
     pub(crate) use std::thread::{spawn, JoinHandle};
+    #[cfg(transparencies_stretto_verif)]
+    pub(crate) use stretto_sim_rt::sync::{spawn, JoinHandle};
+    #[cfg(not(transparencies_stretto_verif))]
     pub(crate) use std::time::Instant;
+    #[cfg(transparencies_stretto_verif)]
+    pub(crate) use stretto_sim_rt::sync::Instant;
 
     pub(crate) type UnboundedSender<T> = Sender<T>;
     pub(crate) type UnboundedReceiver<T> = Receiver<T>;
+    #[cfg(not(transparencies_stretto_verif))]
     pub(crate) type WaitGroup = wg::WaitGroup;
+    #[cfg(transparencies_stretto_verif)]
+    pub(crate) type WaitGroup = stretto_sim_rt::sync::WaitGroup;
 
     pub(crate) fn stop_channel() -> (Sender<()>, Receiver<()>) {
         bounded(0)
